@@ -10,10 +10,13 @@ Trees are python tuples whose leaves may be solver terms:
   ('struct', name, [(key, tree)…]) ('unit_variant', v) ('newtype_variant', v, t) ('tuple_variant', v, [t…])
   ('struct_variant', v, [(k, t)…]) ('seq', [t…]) ('map', [(t, t)…]) ('opt', presence, t) ('str', chars) ('prim', term) ('unit',)
 """
+import re
+
 import z3
 
 from values import *     # noqa
 from models import model, chars_of
+from mirparse import split_top
 
 
 def _s(v):
@@ -35,31 +38,63 @@ def _tree_of_result(r):
     raise Unsupported('serializer result is not a tree: %r' % (r,))
 
 
-def ser_value(I, v):
-    """the tree of any value: in-crate types through their Serialize MIR, std types by their documented serde mapping"""
+def _inner_ty(ty, base):
+    if not ty:
+        return None
+    t = _de_norm(ty)
+    if strip_generics_(t).split('::')[-1] != base:
+        return None
+    from interp import generic_args
+    ga = generic_args(t)
+    return ga[0].strip() if ga else None
+
+
+def ser_value(I, v, ty=None):
+    """the tree of any value: in-crate types through their Serialize MIR, std types by their documented serde mapping.
+    `ty` = the static type written at the call site (turbofish of serialize_field/…): it selects the impl when two
+    in-crate types share a name (`zerv::core::PreReleaseLabel` / `flow::branch_rules::PreReleaseLabel`)"""
     v = peel(v)
     if isinstance(v, (StringObj, Str)):
         return ('str', list(v.chars))
     if isinstance(v, bool) or isinstance(v, int) or z3.is_expr(v):
         return ('prim', v)
     if isinstance(v, VecObj):
-        return ('seq', [ser_value(I, e) for e in v.items])
+        it = _inner_ty(ty, 'Vec')
+        return ('seq', [ser_value(I, e, it) for e in v.items])
     if isinstance(v, MapObj):
         return ('map', [(ser_value(I, k), ser_value(I, x)) for k, x in v.entries])
     if isinstance(v, Adt):
         if v.name == 'Option':
+            it = _inner_ty(ty, 'Option')
             if isinstance(v.variant, int):
-                return ('opt', v.variant, ser_value(I, v.fields[0]) if v.variant == 1 else ('unit',))
-            return ('opt', v.variant, ser_value(I, v.fields[0]) if v.fields else ('unit',))
+                return ('opt', v.variant, ser_value(I, v.fields[0], it) if v.variant == 1 else ('unit',))
+            return ('opt', v.variant, ser_value(I, v.fields[0], it) if v.fields else ('unit',))
         if v.name == 'Box':
-            return ser_value(I, v.fields[0])
+            return ser_value(I, v.fields[0], _inner_ty(ty, 'Box'))
         if v.name == 'Value':           # serde_json::Value: serialises structurally (serde_json's own impl)
             return ('json', v.variant, [ser_value(I, f) for f in v.fields])
-        r = I.call('<%s as Serialize>::serialize' % v.name, [ValPtr(v), new_serializer()])
+        name = v.name
+        if ty:
+            t = _de_norm(ty)
+            if strip_generics_(t).split('::')[-1] == v.name:
+                name = t
+        r = I.call('<%s as Serialize>::serialize' % name, [ValPtr(v), new_serializer()])
         return _tree_of_result(r)
     if v is UNIT or v == ():
         return ('unit',)
     raise Unsupported('serde tree of %r' % (v,))
+
+
+def _vty(ci):
+    """static type of the value argument of a serializer method: its turbofish (`serialize_field::<T>`)"""
+    try:
+        last = ci.path[-1] if ci.path else ''
+        if last.startswith('<') and not last.startswith('<impl'):
+            a = [x.strip() for x in split_top(last[1:-1])]
+            return a[-1] if a else None
+    except Exception:
+        pass
+    return None
 
 
 def _ok_tree(t):
@@ -68,7 +103,7 @@ def _ok_tree(t):
 
 @model('<Serialize>::serialize')
 def _serialize_std(I, ci, v, s):
-    return _ok_tree(ser_value(I, v))
+    return _ok_tree(ser_value(I, v, ci.selfty_full))
 
 
 # ---- scalars
@@ -93,7 +128,7 @@ def _ser_unit(I, ci, s):
 
 @model('<Serializer>::serialize_some')
 def _ser_some(I, ci, s, v):
-    return _ok_tree(('opt', 1, ser_value(I, v)))
+    return _ok_tree(('opt', 1, ser_value(I, v, _vty(ci))))
 
 
 @model('<Serializer>::serialize_unit_struct')
@@ -103,7 +138,7 @@ def _ser_unit_struct(I, ci, s, name):
 
 @model('<Serializer>::serialize_newtype_struct')
 def _ser_newtype_struct(I, ci, s, name, v):
-    return _ok_tree(('struct', _s(name), [('0', ser_value(I, v))]))
+    return _ok_tree(('struct', _s(name), [('0', ser_value(I, v, _vty(ci)))]))
 
 
 @model('<Serializer>::serialize_unit_variant')
@@ -113,7 +148,7 @@ def _ser_unit_variant(I, ci, s, name, idx, variant):
 
 @model('<Serializer>::serialize_newtype_variant')
 def _ser_newtype_variant(I, ci, s, name, idx, variant, v):
-    return _ok_tree(('newtype_variant', _s(variant), ser_value(I, v)))
+    return _ok_tree(('newtype_variant', _s(variant), ser_value(I, v, _vty(ci))))
 
 
 # ---- compound builders
@@ -149,7 +184,7 @@ def _ser_map(I, ci, s, n):
 
 @model('<SerializeStruct>::serialize_field', '<SerializeStructVariant>::serialize_field')
 def _ser_field_kv(I, ci, st, key, v):
-    peel(st).state[2].append((_s(key), ser_value(I, v)))
+    peel(st).state[2].append((_s(key), ser_value(I, v, _vty(ci))))
     return ok(UNIT)
 
 
@@ -160,7 +195,7 @@ def _ser_skip(I, ci, st, key):
 
 @model('<SerializeTupleVariant>::serialize_field', '<SerializeTupleStruct>::serialize_field', '<SerializeSeq>::serialize_element', '<SerializeTuple>::serialize_element')
 def _ser_field_v(I, ci, st, v):
-    peel(st).state[2].append(ser_value(I, v))
+    peel(st).state[2].append(ser_value(I, v, _vty(ci)))
     return ok(UNIT)
 
 
@@ -273,3 +308,402 @@ def struct_keys(t, out=None):
             struct_keys(x[0], out)
             struct_keys(x[1], out)
     return out
+
+
+# ====================================================================== the other direction: a *replaying* Deserializer
+# zerv's derived / hand-written `Deserialize` impls (visitors, field-identifier matchers, `missing_field` defaults,
+# `deserialize_with` helpers) are ordinary MIR generic over the deserializer `D`.  This part supplies one `D`: a
+# deserializer that feeds a recorded serde data-model tree back into those impls — what `ron` does with the document it
+# printed from that tree (struct -> visit_map with the keys in document order, enum -> visit_enum, identifiers ->
+# visit_str, option -> none/some, scalars, strings, sequences).  Composed with the recording serializer this decides
+# "emit -> parse gives an identical object" at the serde data-model level with the contents symbolic; the text layer of
+# `ron` (printer and parser) is the trusted boundary and is exercised natively on every run.
+_DE_INDEX = {}
+
+
+def _de_norm(t):
+    t = re.sub(r"'\w+\s*,?\s*", '', t.strip())
+    t = t.replace('<>', '')
+    t = re.sub(r'^&(mut )?', '', t).strip()
+    return t
+
+
+def _de_target(t):
+    """(deserialised type text, nested item) of a derive-generated helper type such as
+    `zerv::core::_::<impl Deserialize<'de> for PreReleaseVar>::deserialize::__Visitor<'_>`"""
+    t = _de_norm(t)
+    m = re.search(r"<impl (?:[\w:]+::)?Deserialize for (.+?)>::deserialize::(.+)$", t)
+    if not m:
+        return None
+    return m.group(1).strip(), m.group(2).strip()
+
+
+def _item(t):
+    return re.sub(r'\s+', ' ', t.strip())
+
+
+def _same_type(a, b):
+    sa, sb = [x for x in strip_generics_(a).split('::') if x], [x for x in strip_generics_(b).split('::') if x]
+    n = min(len(sa), len(sb))
+    return n > 0 and sa[-n:] == sb[-n:]
+
+
+def strip_generics_(t):
+    out, d = [], 0
+    for ch in t:
+        if ch == '<':
+            d += 1
+        elif ch == '>':
+            d -= 1
+        elif d == 0:
+            out.append(ch)
+    return ''.join(out)
+
+
+def _de_index(I):
+    """index of the Deserialize machinery in the dump: outer `deserialize` per type, and the derive helpers
+    (visit_* of __FieldVisitor/__Visitor, deserialize of __Field/__DeserializeWith) per (type, helper, method)"""
+    idx = _DE_INDEX.get(id(I.prog))
+    if idx is not None:
+        return idx
+    outer, inner = [], []
+    for name, f in I.prog.funcs.items():
+        if f.kind != 'fn' or '<impl at ' not in name:
+            continue
+        meth = name.rsplit('::', 1)[-1]
+        nimpl = name.count('<impl at ')
+        if meth == 'deserialize' and nimpl == 1 and name.endswith('>::deserialize') and len(f.params) == 1 and 'Deserializer' in (f.ret or ''):
+            from interp import generic_args
+            ga = generic_args(_de_norm(f.ret))
+            if ga:
+                outer.append((ga[0].strip(), f))
+            continue
+        if nimpl >= 2 and '>::deserialize::<impl at ' in name:
+            if meth == 'deserialize':
+                from interp import generic_args
+                ga = generic_args(_de_norm(f.ret or ''))
+                tgt = _de_target(ga[0]) if ga else None
+            else:
+                tgt = _de_target(f.params[0][1]) if f.params else None
+            if tgt:
+                inner.append((tgt[0], _item(tgt[1]), meth, f))
+    idx = dict(outer=outer, inner=inner)
+    _DE_INDEX[id(I.prog)] = idx
+    return idx
+
+
+def _de_outer(I, ty):
+    c = [f for t, f in _de_index(I)['outer'] if _same_type(t, ty)]
+    exact = [f for t, f in _de_index(I)['outer'] if _de_norm(t) == _de_norm(ty)]
+    if len(exact) == 1:
+        return exact[0]
+    if len(c) == 1:
+        return c[0]
+    return None
+
+
+def _de_inner(I, helper_ty, meth):
+    tgt = _de_target(helper_ty)
+    if tgt is None:
+        raise Unsupported('deserialize helper type %s' % helper_ty)
+    ty, item = tgt[0], _item(tgt[1])
+    c = [f for t, it, m, f in _de_index(I)['inner'] if m == meth and it == item and _same_type(t, ty)]
+    exact = [f for t, it, m, f in _de_index(I)['inner'] if m == meth and it == item and _de_norm(t) == _de_norm(ty)]
+    if len(exact) == 1:
+        return exact[0]
+    if len(c) == 1:
+        return c[0]
+    raise Unsupported('no unique %s for %s (%d candidates)' % (meth, helper_ty, len(c)))
+
+
+def _turbofish(ci):
+    last = ci.path[-1] if ci.path else ''
+    if last.startswith('<') and not last.startswith('<impl'):
+        return [a.strip() for a in split_top(last[1:-1])]
+    return []
+
+
+def _de_err(msg):
+    return err(Opaque('DeError', msg))
+
+
+def new_deserializer(tree):
+    return Opaque('TreeDe', tree)
+
+
+_PRIMS = ('bool', 'u8', 'u16', 'u32', 'u64', 'usize', 'i8', 'i16', 'i32', 'i64', 'isize', 'char')
+
+
+def de_value(I, ty, tree):
+    """Result<value of type `ty`, DeError> from a recorded tree: in-crate types through their Deserialize MIR,
+    std types by serde's documented impls"""
+    ty = _de_norm(ty)
+    base = strip_generics_(ty).split('::')[-1]
+    if base == 'Option':
+        from interp import generic_args
+        inner = generic_args(ty)[0]
+        if tree[0] != 'opt':
+            return _de_err('expected option')
+        p = tree[1]
+        if isinstance(p, int):
+            if p == 0:
+                return ok(none())
+            r = de_value(I, inner, tree[2])
+            return ok(some(r.fields[0])) if r.variant == 0 else r
+        r = de_value(I, inner, tree[2])
+        if r.variant != 0:
+            raise Unsupported('deserialisation error under a symbolic option presence: %s %r' % (inner, peel(r.fields[0]).state))
+        return ok(Adt('Option', p, [r.fields[0]]))
+    if base in _PRIMS:
+        if tree[0] != 'prim':
+            return _de_err('expected ' + base)
+        return ok(tree[1])
+    if base in ('String', 'str'):
+        if tree[0] != 'str':
+            return _de_err('expected string for %s, tree %r' % (ty, tree[:2]))
+        return ok(StringObj(list(tree[1])))
+    if base == 'Vec':
+        from interp import generic_args
+        inner = generic_args(ty)[0]
+        if tree[0] != 'seq':
+            return _de_err('expected sequence')
+        out = []
+        for t in tree[1]:
+            r = de_value(I, inner, t)
+            if r.variant != 0:
+                return r
+            out.append(r.fields[0])
+        return ok(VecObj(out))
+    if base == 'Value':
+        # serde_json::Value through ron's deserialize_any: only what the checks emit (objects of strings / empty object)
+        if tree[0] != 'json':
+            return _de_err('expected json value')
+        return ok(Adt('Value', tree[1], [_unser(x) for x in tree[2]]))
+    if base == 'IgnoredAny':
+        return ok(Adt('IgnoredAny', 0, []))
+    if base == 'PhantomData':
+        return ok(Adt('PhantomData', 0, []))
+    fn = _de_inner(I, ty, 'deserialize') if '>::deserialize::' in ty else _de_outer(I, ty)
+    if fn is None:
+        raise Unsupported('no Deserialize impl in the dump for ' + ty)
+    I.genv.append(None)
+    try:
+        return I.run(fn, [new_deserializer(tree)])
+    finally:
+        I.genv.pop()
+
+
+def _unser(t):
+    k = t[0]
+    if k == 'str':
+        return StringObj(list(t[1]))
+    if k == 'prim':
+        return t[1]
+    if k == 'seq':
+        return VecObj([_unser(x) for x in t[1]])
+    if k == 'map':
+        return MapObj([(_unser(a), _unser(b)) for a, b in t[1]], 'Map')
+    if k == 'json':
+        return Adt('Value', t[1], [_unser(x) for x in t[2]])
+    raise Unsupported('json subtree %r' % (k,))
+
+
+def _tree_of_de(de):
+    de = peel(de)
+    if isinstance(de, Opaque) and de.kind == 'TreeDe':
+        return de.state
+    raise Unsupported('not a tree deserializer: %r' % (de,))
+
+
+def _visit(I, vty, meth, visitor, *args):
+    fn = _de_inner(I, vty, meth)
+    I.genv.append(None)
+    try:
+        return I.run(fn, [visitor] + list(args))
+    finally:
+        I.genv.pop()
+
+
+@model('<Deserialize>::deserialize')
+def _de_deserialize(I, ci, de):
+    return de_value(I, ci.selfty_full, _tree_of_de(de))
+
+
+@model('<Deserializer>::deserialize_struct')
+def _de_struct(I, ci, de, name, fields, visitor):
+    t = _tree_of_de(de)
+    if t[0] != 'struct':
+        return _de_err('expected struct ' + _s(name))
+    if t[1] != _s(name):
+        return _de_err('expected struct %s, found %s' % (_s(name), t[1]))
+    return _visit(I, _turbofish(ci)[0], 'visit_map', visitor, Opaque('DeMap', dict(items=list(t[2]), i=0)))
+
+
+@model('<Deserializer>::deserialize_enum')
+def _de_enum(I, ci, de, name, variants, visitor):
+    t = _tree_of_de(de)
+    if t[0] not in ('unit_variant', 'newtype_variant', 'tuple_variant', 'struct_variant'):
+        return _de_err('expected enum ' + _s(name))
+    return _visit(I, _turbofish(ci)[0], 'visit_enum', visitor, Opaque('DeEnum', t))
+
+
+@model('<Deserializer>::deserialize_identifier')
+def _de_ident(I, ci, de, visitor):
+    t = _tree_of_de(de)
+    if t[0] != 'ident':
+        return _de_err('expected identifier')
+    return _visit(I, _turbofish(ci)[0], 'visit_str', visitor, Str([ord(c) for c in t[1]]))
+
+
+@model('<Deserializer>::deserialize_seq', '<Deserializer>::deserialize_tuple')
+def _de_seq(I, ci, de, *rest):
+    t = _tree_of_de(de)
+    if t[0] != 'seq':
+        return _de_err('expected sequence')
+    return _visit(I, _turbofish(ci)[0], 'visit_seq', rest[-1], Opaque('DeSeq', dict(items=list(t[1]), i=0)))
+
+
+@model('<Deserializer>::deserialize_str', '<Deserializer>::deserialize_string')
+def _de_str(I, ci, de, visitor):
+    t = _tree_of_de(de)
+    if t[0] != 'str':
+        return _de_err('expected string')
+    return _visit(I, _turbofish(ci)[0], 'visit_str', visitor, Str(list(t[1])))
+
+
+@model('<Deserializer>::deserialize_option')
+def _de_option(I, ci, de, visitor):
+    t = _tree_of_de(de)
+    if t[0] != 'opt' or not isinstance(t[1], int):
+        raise Unsupported('deserialize_option with an in-crate visitor on %r' % (t[0],))
+    if t[1] == 0:
+        return _visit(I, _turbofish(ci)[0], 'visit_none', visitor)
+    return _visit(I, _turbofish(ci)[0], 'visit_some', visitor, new_deserializer(t[2]))
+
+
+def _field_of(I, kty, name):
+    """the derive's field/variant identifier for a key: `<__Field as Deserialize>::deserialize` on an identifier"""
+    fn = _de_inner(I, kty, 'deserialize')
+    I.genv.append(None)
+    try:
+        return I.run(fn, [new_deserializer(('ident', name))])
+    finally:
+        I.genv.pop()
+
+
+@model('<MapAccess>::next_key')
+def _de_next_key(I, ci, m):
+    st = peel(m).state
+    if st['i'] >= len(st['items']):
+        return ok(none())
+    r = _field_of(I, _turbofish(ci)[0], st['items'][st['i']][0])
+    return ok(some(r.fields[0])) if r.variant == 0 else r
+
+
+@model('<MapAccess>::next_value')
+def _de_next_value(I, ci, m):
+    st = peel(m).state
+    t = st['items'][st['i']][1]
+    st['i'] += 1
+    return de_value(I, _turbofish(ci)[0], t)
+
+
+@model('<SeqAccess>::next_element')
+def _de_next_element(I, ci, s):
+    st = peel(s).state
+    if st['i'] >= len(st['items']):
+        return ok(none())
+    t = st['items'][st['i']]
+    st['i'] += 1
+    r = de_value(I, _turbofish(ci)[0], t)
+    return ok(some(r.fields[0])) if r.variant == 0 else r
+
+
+@model('<SeqAccess>::size_hint', '<MapAccess>::size_hint')
+def _de_size_hint(I, ci, s):
+    return none()
+
+
+@model('<EnumAccess>::variant')
+def _de_variant(I, ci, e):
+    t = peel(e).state
+    r = _field_of(I, _turbofish(ci)[0], t[1])
+    if r.variant != 0:
+        return r
+    return ok(Tuple(r.fields[0], Opaque('DeVariant', t)))
+
+
+@model('<VariantAccess>::unit_variant')
+def _de_unit_variant(I, ci, v):
+    t = peel(v).state
+    return ok(UNIT) if t[0] == 'unit_variant' else _de_err('expected unit variant')
+
+
+@model('<VariantAccess>::newtype_variant')
+def _de_newtype_variant(I, ci, v):
+    t = peel(v).state
+    if t[0] != 'newtype_variant':
+        return _de_err('expected newtype variant')
+    return de_value(I, _turbofish(ci)[0], t[2])
+
+
+@model('<VariantAccess>::tuple_variant')
+def _de_tuple_variant(I, ci, v, n, visitor):
+    t = peel(v).state
+    if t[0] != 'tuple_variant':
+        return _de_err('expected tuple variant')
+    return _visit(I, _turbofish(ci)[0], 'visit_seq', visitor, Opaque('DeSeq', dict(items=list(t[2]), i=0)))
+
+
+@model('<VariantAccess>::struct_variant')
+def _de_struct_variant(I, ci, v, fields, visitor):
+    t = peel(v).state
+    if t[0] != 'struct_variant':
+        return _de_err('expected struct variant')
+    return _visit(I, _turbofish(ci)[0], 'visit_map', visitor, Opaque('DeMap', dict(items=list(t[2]), i=0)))
+
+
+@model('missing_field')
+def _de_missing_field(I, ci, name):
+    # serde::__private::de::missing_field::<V, E>: Option<T> fields default to None, every other type is an error
+    tys = _turbofish(ci)
+    tys = [t for t in tys if not t.startswith("'")]
+    if tys and strip_generics_(_de_norm(tys[0])).split('::')[-1] == 'Option':
+        return ok(none())
+    return _de_err('missing field `%s`' % _s(name))
+
+
+@model('<Error>::duplicate_field', '<Error>::missing_field', '<Error>::unknown_field', '<Error>::unknown_variant', '<Error>::invalid_length',
+       '<Error>::invalid_value', '<Error>::invalid_type', '<Error>::custom')
+def _de_error_ctor(I, ci, *args):
+    what = ''
+    try:
+        what = ' ' + _s(args[0])
+    except Exception:
+        pass
+    return Opaque('DeError', ci.method + what)
+
+
+def _de_names_const(I, text):
+    # `FIELDS` / `VARIANTS` of a derived Deserialize impl: only handed to the deserializer (ignored by the replaying one)
+    if re.search(r">::deserialize::(FIELDS|VARIANTS)$", text.strip()):
+        return Slice([])
+    # zero-sized derive helpers written as constants: `…::deserialize::__Visitor::<'_> {{ marker: PhantomData…, … }}`, `__FieldVisitor`
+    m = re.search(r">::deserialize::(__\w+)", text)
+    if m and ('{{' in text or text.strip().endswith(m.group(1))):
+        return Adt(m.group(1), 0, [])
+    return None
+
+
+from models import CONSTS as _CONSTS
+_CONSTS.append(_de_names_const)
+
+
+def ignore_index(I, field_ty):
+    """discriminant of `__Field::__ignore` of a derived impl = number of named fields (from the impl's own visit_str body)"""
+    tgt = _de_target(field_ty or '')
+    if tgt is None:
+        raise Unsupported('__ignore of %r' % (field_ty,))
+    fn = _de_inner(I, re.sub(r'__Field\b', '__FieldVisitor', _de_norm(field_ty)), 'visit_str')
+    ks = [int(x) for x in re.findall(r'__Field::__field(\d+)', '\n'.join(l for ls in fn.raw.values() for l in ls))]
+    return max(ks) + 1 if ks else 0
